@@ -103,20 +103,23 @@ Theorem c14_changed_in_effect : forall hashf w c bo w1,
 Proof. exact changed_in_effect. Qed.
 Print Assumptions c14_changed_in_effect.
 
-(** Transaction form: after the reload, let the clients do anything (connect, begin, end, leave —
-    any number of steps, no further reload); the next transaction of a client whose (pool, user)
-    is in the new configuration runs on a server of such an object. *)
+(** Transaction form: after the reload let anything happen that is not another reload (clients connect, begin,
+    end, idle, leave; PAUSE, RESUME; held clients go on); the next transaction of a client whose (pool, user) is
+    in the new configuration — whether it begins then ([OBegin]) or was HELD by PAUSE since before the reload and
+    goes on now ([OWake]; [start_op] picks the one that applies) — runs on a server of such an object, with the
+    client's clone being that object and the idle timeout of the new file. *)
 Theorem c14_changed_in_effect_txn : forall hashf w c bo w1 ops w2 obs cl x pd us,
   winv hashf w -> wf_cfg c ->
   step hashf w (OReload (Valid c bo)) = (w1, ObReload (ROk true)) ->
-  Forall (fun o => actor o <> None) ops -> run hashf w1 ops = (w2, obs) ->
+  Forall (fun o => is_reload o = false) ops -> run hashf w1 ops = (w2, obs) ->
   cl_lookup cl (clients w2) = Some x -> cheld x = None ->
   existsb (key_eqb (cdb x, cuser x)) (paused w2) = false ->
   clookup (cdb x) (cpools c) = Some (pd, us) -> In (cuser x) us ->
-  exists w3 p s f pd', step hashf w2 (OBegin cl) = (w3, ObBegun p s f) /\
+  exists w3 p s f pd' y, step hashf w2 (start_op w2 cl) = (w3, ObBegun p s f) /\
     In {| sid := s; spool := p; sholder := Some cl |} (servers w3) /\
     In (p, ((cdb x, cuser x), pd')) (objs w2) /\ hashf pd' = hashf pd /\
-    (no_reuse hashf (pools (st w)) (cdb x, cuser x) pd -> next_pool w <= p /\ pd' = pd).
+    (no_reuse hashf (pools (st w)) (cdb x, cuser x) pd -> next_pool w <= p /\ pd' = pd) /\
+    cl_lookup cl (clients w3) = Some y /\ cclone y = p /\ ctmo y = cidle c.
 Proof. exact changed_in_effect_txn. Qed.
 Print Assumptions c14_changed_in_effect_txn.
 
@@ -162,10 +165,10 @@ Print Assumptions c14_inflight_ends.
 Theorem c14_removed_pool_error : forall hashf w c bo w1 ops w2 obs cl x,
   winv hashf w -> pinv w -> wf_cfg c ->
   step hashf w (OReload (Valid c bo)) = (w1, ObReload (ROk true)) ->
-  Forall (fun o => actor o <> None) ops -> run hashf w1 ops = (w2, obs) ->
+  Forall (fun o => is_reload o = false) ops -> run hashf w1 ops = (w2, obs) ->
   cl_lookup cl (clients w2) = Some x -> cheld x = None ->
   (match clookup (cdb x) (cpools c) with Some (_, us) => ~ In (cuser x) us | None => True end) ->
-  exists w3, step hashf w2 (OBegin cl) = (w3, ObNoPool) /\ cl_lookup cl (clients w3) = None /\
+  exists w3, step hashf w2 (start_op w2 cl) = (w3, ObNoPool) /\ cl_lookup cl (clients w3) = None /\
              st w3 = st w2 /\ (forall y, In y (servers w3) -> In y (servers w2)).
 Proof. exact removed_pool_error. Qed.
 Print Assumptions c14_removed_pool_error.
@@ -297,6 +300,33 @@ Theorem c14_mutant_keep_paused_refuted :
             clookup 0 (cpools (config (st w))) = None.
 Proof. exact keep_paused_refuted. Qed.
 Print Assumptions c14_mutant_keep_paused_refuted.
+
+(** A transaction that was held by PAUSE reads the configuration in force when it actually starts: the outcome of
+    [OWake] is a function of POOLS / CONFIG at that moment (pool object, server, idle timeout), whatever the
+    client had looked up before it parked. *)
+Theorem c14_held_reads_at_start : forall hashf w c x,
+  cl_lookup c (clients w) = Some x -> is_waiting w c = true ->
+  existsb (key_eqb (cdb x, cuser x)) (paused w) = false ->
+  match begin_txn (st w) (cdb x) (cuser x) with
+  | Some p => exists w' s f, step hashf w (OWake c) = (w', ObBegun p s f) /\
+                cl_lookup c (clients w') = Some {| cdb := cdb x; cuser := cuser x; cclone := p; cheld := Some s; ctmo := cidle (config (st w)) |} /\
+                In {| sid := s; spool := p; sholder := Some c |} (servers w')
+  | None => exists w', step hashf w (OWake c) = (w', ObNoPool) /\ cl_lookup c (clients w') = None /\
+                st w' = st w /\ (forall y, In y (servers w') -> In y (servers w))
+  end.
+Proof. exact wake_resolves. Qed.
+Print Assumptions c14_held_reads_at_start.
+
+(** Mutant 4 (Mutants.v): the lookup after wait_paused() dropped — refuted: the held client parked with a clone of
+    object 0, the reload built object 2 for its pool, the model starts the transaction on object 2. *)
+Theorem c14_mutant_wake_stale_refuted :
+  exists w x, run idh empty_world held_ops =
+                (w, [ObReload (ROk true); ObConnected 0; ObAdmin true; ObBlocked; ObReload (ROk true); ObAdmin true]) /\
+              cl_lookup 0 (clients w) = Some x /\ cclone x = 0 /\ is_waiting w 0 = true /\
+              begin_txn (st w) 0 0 = Some 2 /\ In (2, ((0, 0), 11)) (objs w) /\ In (0, ((0, 0), 10)) (objs w) /\
+              exists w' s, step idh w (OWake 0) = (w', ObBegun 2 s true).
+Proof. exact wake_stale_refuted. Qed.
+Print Assumptions c14_mutant_wake_stale_refuted.
 
 (** ------------------------------------------------------------------ non-vacuity *)
 
